@@ -12,11 +12,13 @@ sys.path.insert(0, V)
 sys.path.insert(0, os.path.join(V, "lib"))
 
 ids = [json.loads(l)["id"] for l in open(os.path.join(V, "properties.jsonl"))]
+# only checks the integrator has reviewed, run on the unchanged tree and committed are claimed
+integrated = set(json.load(open(os.path.join(V, "tools", "integrated.json"))))
 checks = []
 claimed = set()
 for pid in ids:
     p = os.path.join(V, "props", pid.lower() + ".py")
-    if not os.path.exists(p):
+    if not os.path.exists(p) or pid not in integrated:
         continue
     m = importlib.import_module("props." + pid.lower())
     if getattr(m, "DISABLED", False):
